@@ -9,45 +9,45 @@ Each theorem is followed by a non-vacuity `example`.
 namespace VivProps.C17
 open Viv
 
-/-- `normalize_path` is idempotent, for every path (including paths climbing above the root). -/
-theorem normalize_idempotent (p : Path) : normalize (normalize p) = normalize p := by
-  -- the reversed progress list always has the shape  clean ++ (zero or one "..")
-  have key : ∀ (p : Path) (rev : List String),
-      (Clean rev ∨ ∃ c, Clean c ∧ rev = c ++ [".."]) →
-      (Clean (normalizeRev rev p) ∨ ∃ c, Clean c ∧ normalizeRev rev p = c ++ [".."]) := by
-    intro p
-    induction p with
-    | nil => intro rev h; simpa [normalizeRev] using h
-    | cons x xs ih =>
-      intro rev h
-      have : normalizeRev rev (x :: xs) = normalizeRev (normStep rev x) xs := by
-        simp [normalizeRev]
-      rw [this]; apply ih
-      unfold normStep
-      by_cases hx : x = ".."
-      · simp only [hx, if_true]
-        cases rev with
-        | nil => right; exact ⟨[], Clean.nil, by simp⟩
-        | cons y ys =>
-          simp only
-          rcases h with h | ⟨c, hc, e⟩
-          · left; intro s hs; exact h s (by simp [hs])
-          · cases c with
-            | nil => simp at e; left; rw [e.2]; exact Clean.nil
-            | cons c0 cs =>
-              simp at e; right
-              exact ⟨cs, fun s hs => hc s (by simp [hs]), e.2⟩
-      · simp only [hx, if_false]
+/-- the reversed progress list always has the shape  clean ++ (zero or one "..") -/
+private theorem normalizeRev_shape (p : Path) (rev : List String)
+    (h : Clean rev ∨ ∃ c, Clean c ∧ rev = c ++ [".."]) :
+    (Clean (normalizeRev rev p) ∨ ∃ c, Clean c ∧ normalizeRev rev p = c ++ [".."]) := by
+  induction p generalizing rev with
+  | nil => simpa [normalizeRev] using h
+  | cons x xs ih =>
+    have : normalizeRev rev (x :: xs) = normalizeRev (normStep rev x) xs := by
+      simp [normalizeRev]
+    rw [this]; apply ih
+    unfold normStep
+    by_cases hx : x = ".."
+    · simp only [hx, if_true]
+      cases rev with
+      | nil => right; exact ⟨[], Clean.nil, by simp⟩
+      | cons y ys =>
+        simp only
         rcases h with h | ⟨c, hc, e⟩
-        · left; intro s hs; simp at hs; rcases hs with rfl | hs
-          · exact hx
-          · exact h s hs
-        · right; refine ⟨x :: c, ?_, by simp [e]⟩
-          intro s hs; simp at hs; rcases hs with rfl | hs
-          · exact hx
-          · exact hc s hs
+        · left; intro s hs; exact h s (by simp [hs])
+        · cases c with
+          | nil => simp at e; left; rw [e.2]; exact Clean.nil
+          | cons c0 cs =>
+            simp at e; right
+            exact ⟨cs, fun s hs => hc s (by simp [hs]), e.2⟩
+    · simp only [hx, if_false]
+      rcases h with h | ⟨c, hc, e⟩
+      · left; intro s hs; simp at hs; rcases hs with rfl | hs
+        · exact hx
+        · exact h s hs
+      · right; refine ⟨x :: c, ?_, by simp [e]⟩
+        intro s hs; simp at hs; rcases hs with rfl | hs
+        · exact hx
+        · exact hc s hs
+
+/-- folding a normal form again rebuilds the progress list it came from -/
+private theorem normalizeRev_normalize (p : Path) :
+    normalizeRev [] (normalize p) = normalizeRev [] p := by
   unfold normalize
-  rcases key p [] (Or.inl Clean.nil) with h | ⟨c, hc, e⟩
+  rcases normalizeRev_shape p [] (Or.inl Clean.nil) with h | ⟨c, hc, e⟩
   · have hc : Clean (normalizeRev [] p).reverse := h.reverse
     rw [normalizeRev_clean [] _ hc]; simp
   · rw [e]
@@ -56,6 +56,37 @@ theorem normalize_idempotent (p : Path) : normalize (normalize p) = normalize p 
     have : normalizeRev [] (".." :: c.reverse) = normalizeRev [".."] c.reverse := by
       simp [normalizeRev, normStep]
     rw [this, normalizeRev_clean _ _ hc.reverse]; simp
+
+/-- `normalize_path` is idempotent, for every path (including paths climbing above the root). -/
+theorem normalize_idempotent (p : Path) : normalize (normalize p) = normalize p := by
+  show (normalizeRev [] (normalize p)).reverse = normalize p
+  rw [normalizeRev_normalize]; rfl
+
+/-- **Resolution composes**: resolving a route in two legs — normalise the first leg, append the
+second, normalise again — is resolving the whole route at once, for every pair of paths (also
+when the first leg climbs above the root and keeps a leading `..`).  Idempotence is the case
+`b = []`. -/
+theorem normalize_append_normalize (a b : Path) :
+    normalize (normalize a ++ b) = normalize (a ++ b) := by
+  unfold normalize
+  rw [normalizeRev_append, normalizeRev_append]
+  have := normalizeRev_normalize a
+  unfold normalize at this
+  rw [this]
+
+/-- … and the second leg may be normalised first **when it does not climb** (a `..`-free leg is
+its own normal form; a climbing second leg cannot be normalised alone: see the witness below). -/
+theorem normalize_append_clean (a b : Path) (hb : Clean b) :
+    normalize (a ++ normalize b) = normalize (a ++ b) := by
+  rw [normalize_clean b hb]
+
+/-- witness: normalising a climbing second leg on its own changes the result -/
+theorem normalize_right_leg_fails :
+    normalize (["a", "b"] ++ normalize ["..", "..", "c"]) ≠ normalize (["a", "b"] ++ ["..", "..", "c"]) := by
+  decide
+
+example : normalize (normalize ["a", "..", ".."] ++ ["..", "b"]) = normalize (["a", "..", ".."] ++ ["..", "b"]) :=
+  normalize_append_normalize _ _
 
 example : normalize ["a", "..", "..", "b", "c", ".."] = ["..", "b"] := by decide
 
